@@ -307,6 +307,12 @@ Arguments OPartialDeriv {name Fn Fn0 X Sc} pname d.
 Arguments OInvariant {name Fn Fn0 X Sc} f.
 Arguments OIndepVar {name Fn Fn0 X Sc} x.
 Arguments OInitParams {name Fn Fn0 X Sc} l.
+Arguments EmptyParameters {name}.
+Arguments EmptyModel {name}.
+Arguments IncorrectParameterCount {name} actual expected.
+Arguments MissingX {name}.
+Arguments MissingInitialParameters {name}.
+Arguments IllegalCallToPartialDeriv {name}.
 Arguments SPanic {name Fn Fn0 X Sc}.
 Arguments SError {name Fn Fn0 X Sc} e.
 Arguments SNormal {name Fn Fn0 X Sc} m.
